@@ -45,19 +45,21 @@ LEVEL = "model_checking"
 RULE = (
     "reactions: factory (1, 2, 3 resonances on one / two topologies; the same resonance in"
     " 2 and 3 topologies; a resonance name that is a prefix of another; 4-body cascade and"
-    " two-resonance topology; canonical formalism with several L per decay; half-integer"
-    " parents; identical final-state particles whose exchange changes the topology) and"
-    " catalogue (jpsi_gpipi_f0f2, jpsi_ksp_sigma_n, lc_pkpi, jpsi_gpipi_omega; .hel/.can);"
-    " alphabet per reaction = selections {every resonance name, initial-state name, an"
-    " unknown name (a proper prefix of a resonance name), Particle, TwoBodyDecay of a"
-    " resonance node / of an image-only node / of a root node, (transition, node)} x"
-    " builders {non_dynamic, BW, BW+ff, analytic BW, SPY1, SPY2}; all assignment histories"
-    " of depth <= 3 (quick) / 4 (thorough), BFS with merging of equal selector maps (big"
-    " catalogue reactions: reduced builder set / depth, see coverage.alphabets); every"
-    " state is re-built on a fresh builder by replaying its history and formulated; every"
-    " transition is executed on the real selector; non-trivial = distinct (reaction,"
-    " selector map) states in which the reference predicts >= 1 SPY atom and the spy"
-    " oracle ran"
+    " two-resonance topology; canonical formalism with several L per decay and L != parent"
+    " spin; half-integer parents; identical final-state particles whose exchange changes the"
+    " topology) and catalogue (jpsi_gpipi_f0f2, jpsi_ksp_sigma_n, lc_pkpi, jpsi_gpipi_omega;"
+    " .hel/.can); alphabet per (reaction, variant) = selections {every resonance name, an"
+    " unknown name that is a proper prefix of a resonance name, Particle, TwoBodyDecay of a"
+    " resonance node, TwoBodyDecay of an image-only node, (transition, node); 'full' variants"
+    " add the initial-state name and the TwoBodyDecay of a root node} x builders = a subset of"
+    " {non_dynamic, BW, BW+ff, analytic BW, SPY1, SPY2} (3-6 of them, rotated over the"
+    " reactions so that every builder meets every reaction family; the variant is part of the"
+    " reaction id in the samples); all assignment histories of depth <= 3 (quick) / 4"
+    " (thorough; 3 for the 'full' variants, 2 for the heaviest canonical reactions), BFS with"
+    " merging of equal selector maps; every state is re-built on a fresh builder by replaying"
+    " its history and formulated; every transition is executed on the real selector;"
+    " non-trivial = distinct (reaction variant, selector map) states in which the reference"
+    " predicts >= 1 SPY atom and the spy oracle ran"
 )
 ASSUMPTIONS = [
     "merging: the selector's observable state is its map decay -> builder (checked against"
@@ -742,7 +744,7 @@ def eval_case(case):
                 logger.removeHandler(handler)
                 logging.disable(logging.CRITICAL)
             real2 = su.read_map(selector)
-            warned = [r for r in handler.records if "no resonance" in r or str(op[1]) in r]
+            warned = list(handler.records)
             if real2 != ref2.map:
                 diff = [(k[0], real2.get(k), ref2.map.get(k)) for k in set(real2) | set(ref2.map)
                         if real2.get(k) != ref2.map.get(k)]
